@@ -147,9 +147,12 @@ func Props(c *Ctx) map[string]*Prop {
 					s := map[*core.Func]bool{}
 					for _, n := range []string{"parser.(*lexer).lexHeredoc", "parser.(*heredoc).pop", "parser.(*heredoc).push", "parser.(*heredoc).inc", "parser.(*heredoc).exists", "parser.(*lexer).scanRedir"} {
 						if f := c.fn(n); f != nil {
-							s[f] = true
-							for _, l := range f.Lits {
-								s[l] = true
+							// the function and the private helpers its code may have been moved into
+							for _, g := range c.region(f) {
+								s[g] = true
+								for _, l := range g.Lits {
+									s[l] = true
+								}
 							}
 						}
 					}
